@@ -81,9 +81,10 @@ PROPS['C17'] = {
     'claim': 'Lean 4 proofs: every valid civil second of years 0-9999 encodes (UTCTime iff 1950-2049, widths 13/15) and decodes back '
              'with both decoders; anything decoded is a real calendar time rendered in exactly the fixed-width all-digit Z form with the '
              'pivot at 50; verify_at is nb<=t<=na and trim is intersection; Serial::from_slice/from_str/encode_dec/DER content are exact '
-             'in value for all 20-octet serials (decimal and minimal-DER round trips, numeric order). Partial: the map from civil fields '
-             'to chrono instants (calendar validity = ymd_opt/and_hms_opt, ordering of instants) is assumed, and validated by the '
-             'every-day sweep of years 1-9999 on the real code.',
+             'in value for all 20-octet serials (decimal and minimal-DER round trips, numeric order). The instant of a civil time is modelled '
+             '(Model/Instant.lean: seconds through the proleptic Gregorian calendar = Time::timestamp, compared on every day of the years '
+             '1-9999) and calendar order is proved to be the order of instants (calendar_order_is_instant_order, validity_iff_calendar). '
+             'Partial: calendar validity (= chrono\'s ymd_opt/and_hms_opt) is modelled by validCivil and validated by the every-day sweep.',
     'note': 'chrono calendar validity modelled by validCivil; u32::from_str modelled by rustU32; bcder Unsigned head check modelled by '
             'decodeSerialContent; all three are exercised differentially. Pivot, year window and the digit check are regenerated from '
             'src/repository/x509.rs on every run. Mathlib is used only for the tactics ring/linarith/norm_num in the serial lemmas.',
